@@ -150,6 +150,10 @@ func cmdCheck(args []string) int {
 		return 2
 	}
 	outDir := filepath.Join(verifDir, "out", prop)
+	if od := os.Getenv("GVC_OUT"); od != "" {
+		// scratch runs (must-fail corpus) keep their scripts and replays apart from the registered checks' output
+		outDir = filepath.Join(od, prop)
+	}
 	os.RemoveAll(outDir)
 	os.MkdirAll(filepath.Join(outDir, "replay"), 0o755)
 
